@@ -10,7 +10,7 @@ import (
 
 func init() {
 	register("C18", propMeta{
-		Explanation: "E-GUARD + E-PROV + E-OWN + E-LOCK. O-1 sanitiser shape: clientAddr returns a non-empty address only through param != \"\", net.ParseIP(param) != nil and !ip.IsUnspecified() on that parsed IP; the value is (&net.TCPAddr{IP: ip, Port: 1}).String() of the parsed IP; every other return is the empty ClientMapAddr. O-2 flow: ServeHTTP sanitises the client_ip query value of this request and passes exactly that to turbotunnelMode, which stores it under this carrier's ClientID by the only Set call; acceptStreams fetches the address once, before the stream loop, with the session's RemoteAddr().(ClientID), and every accepted connection carries that value, which RemoteAddr() returns; on the proxy side the client_ip value is the String() of the address computed by remoteIPFromSDP, which returns only addresses that pass isRemoteAddress. O-3 bounded ring: entries is allocated once with the capacity and never appended or re-sliced; oldest advances only as (oldest + 1) % len(entries); inserting current[k] = oldest is preceded on every path by the delete of the stale owner of that slot; len(entries) == 0 returns before indexing; every access to the ring is under its mutex, Get's read of the entry included. Each clause is necessary: e.g. reading entries[i] after releasing the lock returns another session's address. Added after the second seeding round: O-2 every path from the successful ClientID read to the packet loops passes clientIDAddrMap.Set (each carrier records its address, not only the first), and the relay URL that client_ip is written into is parsed by this invocation of datachannelHandler; O-3 Set takes a new slot on every call with a non-empty ring. Added after the third seeding round: ServeHTTP and its helpers store nothing in the handler object, which all requests of a listener share. Added after the fourth seeding round: SnowflakeClientConn.RemoteAddr returns nothing but the stored address (no fallback to the wrapped stream's address, which is the ClientID). Added after the fifth seeding round: isRemoteAddress consults util.IsLocal (the table C08 verifies), IsUnspecified and IsLoopback on its parameter.",
+		Explanation: "E-GUARD + E-PROV + E-OWN + E-LOCK. O-1 sanitiser shape: clientAddr returns a non-empty address only through param != \"\", net.ParseIP(param) != nil and !ip.IsUnspecified() on that parsed IP; the value is (&net.TCPAddr{IP: ip, Port: 1}).String() of the parsed IP; every other return is the empty ClientMapAddr. O-2 flow: ServeHTTP sanitises the client_ip query value of this request and passes exactly that to turbotunnelMode, which stores it under this carrier's ClientID by the only Set call; acceptStreams fetches the address once, before the stream loop, with the session's RemoteAddr().(ClientID), and every accepted connection carries that value, which RemoteAddr() returns; on the proxy side the client_ip value is the String() of the address computed by remoteIPFromSDP, which returns only addresses that pass isRemoteAddress. O-3 bounded ring: entries is allocated once with the capacity and never appended or re-sliced; oldest advances only as (oldest + 1) % len(entries); inserting current[k] = oldest is preceded on every path by the delete of the stale owner of that slot; len(entries) == 0 returns before indexing; every access to the ring is under its mutex, Get's read of the entry included. Each clause is necessary: e.g. reading entries[i] after releasing the lock returns another session's address. Added after the second seeding round: O-2 every path from the successful ClientID read to the packet loops passes clientIDAddrMap.Set (each carrier records its address, not only the first), and the relay URL that client_ip is written into is parsed by this invocation of datachannelHandler; O-3 Set takes a new slot on every call with a non-empty ring. Added after the third seeding round: ServeHTTP and its helpers store nothing in the handler object, which all requests of a listener share. Added after the fourth seeding round: SnowflakeClientConn.RemoteAddr returns nothing but the stored address (no fallback to the wrapped stream's address, which is the ClientID). Added after the fifth seeding round: isRemoteAddress consults util.IsLocal (the table C08 verifies), IsUnspecified and IsLoopback on its parameter. Added after the sixth seeding round and the mutation audit: clientIDAddrMap.Set is a plain call (not go/defer) on every path to the packet loops; O-1/C20 the map is assigned only at package initialisation.",
 		NotDecided:  "which carrier is 'most recent' under concurrent carriers (history-level), the address being forgotten when the ring overflowed between set and get (documented behaviour).",
 		Assumptions: []string{"net.ParseIP / IsUnspecified / TCPAddr.String behave as documented"},
 	}, runC18)
@@ -169,6 +169,9 @@ func runC18(c *Ctx) {
 				nSet++
 				addrPar := paramOfType(tm, "net.Addr")
 				good := fn == tm && addrPar != nil && ci.Common().Args[2] == ssa.Value(addrPar)
+				if _, plain := ci.(*ssa.Call); !plain {
+					c.viol(rule2, p.FnName(fn)+" records the carrier's address before serving it", p.instrPos(ci), "clientIDAddrMap.Set is started with go (or deferred): the carrier's first packets can establish the session before the address is recorded, and the Set calls of one ClientID are no longer ordered")
+				}
 				c.check(good, rule2, p.FnName(fn)+" stores the carrier's address", p.instrPos(ci), "the only Set call, with turbotunnelMode's addr parameter", "the ClientID-to-address map is written with something other than this carrier's sanitised address, or from another place")
 			}
 		}
@@ -176,6 +179,15 @@ func runC18(c *Ctx) {
 			c.viol(rule2, "exactly one clientIDAddrMap.Set call", "-", fmt.Sprintf("%d calls", nSet))
 		}
 		c.checkSetOnEveryCarrier(rule2)
+		// the map that carries the addresses from the carriers to the sessions is one object for the life of
+		// the process: replacing it discards the associations of the sessions being served
+		c.prefix = "O-1/C20:"
+		for _, r := range globalGuardTable {
+			if r.Rel == "server/lib" && r.Name == "clientIDAddrMap" {
+				c.checkGlobalRows("O-1 guarded-by table", []globalRow{r})
+			}
+		}
+		c.prefix = ""
 		// acceptStreams: Get once before the loop, keyed by RemoteAddr().(ClientID)
 		var get *ssa.Call
 		nGet := 0
@@ -474,7 +486,7 @@ func (c *Ctx) checkSetOnEveryCarrier(rule2 string) {
 			for _, e := range okE {
 				pth := psSearch(e.To(), nil, func(b *ssa.BasicBlock) bool {
 					for _, in := range b.Instrs {
-						if c2, ok := in.(ssa.CallInstruction); ok && calleeName(c2) == "(*server/lib.clientIDMap).Set" {
+						if c2, ok := in.(*ssa.Call); ok && calleeName(c2) == "(*server/lib.clientIDMap).Set" {
 							return true
 						}
 					}
